@@ -15,7 +15,7 @@ ENGINES = {
     "shadow_crdt": {"cwd": "$CACHE/shadow/crdt", "pkg": [], "slots": 4, "prepare": "prepare_crdt"},
     "shadow_sync": {"cwd": "$CACHE/shadow/sync", "pkg": [], "slots": 2, "prepare": "prepare_sync"},
     "shadow_canonical": {"cwd": "$CACHE/shadow/canonical", "pkg": [], "slots": 2, "prepare": "prepare_canonical"},
-    "ext_radicle": {"cwd": "$VERIF/harness/ext/radicle", "pkg": [], "slots": 3, "copy_lock": True},
+    "ext_radicle": {"cwd": "$VERIF/harness/ext/radicle", "pkg": [], "slots": 2, "copy_lock": True},
     "ext_c27": {"cwd": "$VERIF/harness/ext/c27", "pkg": [], "slots": 3, "copy_lock": True},
 }
 SETUP_ENGINES = ["node", "ext_c27", "shadow_crdt", "shadow_sync", "shadow_canonical", "ext_radicle"]
